@@ -298,6 +298,12 @@ impl PixelDataWriter for JpegAdapter {
             .encode(&frame_data, cols, rows, color_type)
             .whatever_context("JPEG encoding failed")?;
 
+        if (dst.len() - len_before) % 2 == 1 {
+            // add null byte after the end of image marker
+            // to maintain even fragment length
+            dst.push(0);
+        }
+
         let compressed_frame_size = dst.len() - len_before;
 
         let compression_ratio = frame_size as f64 / compressed_frame_size as f64;
